@@ -43,6 +43,14 @@ fn observe() -> Sig {
     };
     let c = f(Local.from_local_datetime(&jan));
     let d = f(Local.from_local_datetime(&jul));
+    // the first probe of each direction once more at the end: the next conversion then starts with the very call this
+    // one ended with (a one-entry memo of "the last lookup" survives exactly that), and one conversion must not
+    // answer the same question in two ways
+    let a2 = Local.offset_from_utc_datetime(&jan).fix().local_minus_utc() as i64;
+    let c2 = f(Local.from_local_datetime(&jan));
+    if a2 != a || c2 != c {
+        return [a, b, -777, a2 ^ c2];
+    }
     [a, b, c, d]
 }
 
@@ -87,6 +95,8 @@ fn build_env(work: &std::path::Path, create: bool) -> Env {
         let _ = std::fs::create_dir_all(work.join("cwd/Europe"));
         let _ = std::fs::copy("/usr/share/zoneinfo/Asia/Tokyo", work.join("cwd/Europe/Paris"));
         let _ = std::fs::copy("/usr/share/zoneinfo/Asia/Tokyo", work.join("cwd/AAA-3"));
+        // a readable file that is not a TZif file
+        let _ = std::fs::write(work.join("Junk"), vec![b'x'; 300]);
     }
     let sys = file_zone("/etc/localtime").unwrap_or_else(utc_zone);
     let ny = file_zone(zone_a.to_str().unwrap()).unwrap_or_else(|| machinery("reference reader cannot read America/New_York"));
@@ -108,6 +118,8 @@ fn build_env(work: &std::path::Path, create: bool) -> Env {
         // a value that differs from an earlier one only by white space is not the same setting (a name with a trailing
         // space names no file and is no rule, so the system zone), and a change between the two must be noticed
         (Some("Europe/Paris ".into()), sys.clone(), FALLBACK),
+        // a readable file that cannot be parsed: the system zone, and nothing of it may stick to the thread
+        (Some(format!(":{}", work.join("Junk").to_str().unwrap())), sys.clone(), FALLBACK),
     ];
     let tokyo = file_zone("/usr/share/zoneinfo/Asia/Tokyo").map(|z| sig_of(&z)).unwrap_or([0; 4]);
     Env { tz: settings.iter().map(|s| s.0.clone()).collect(), sig: settings.iter().map(|s| sig_of(&s.1)).collect(), kind: settings.iter().map(|s| s.2).collect(), zone: settings.into_iter().map(|s| s.1).collect(), decoy: tokyo }
@@ -135,7 +147,7 @@ fn spawn_worker() -> Worker {
     Worker { req: rt, resp: sr }
 }
 
-const NTZ: usize = 12;
+const NTZ: usize = 13;
 // events: 0..NTZ set TZ to that setting; then +0.6 s; +1.0 s; convert on A; convert on B; convert on a fresh thread;
 // and "+1.0 s and then convert on A" as one event
 const E_W06: usize = NTZ;
@@ -444,7 +456,7 @@ fn main() {
         property: "C18",
         classes: CLASSES,
         required: &["conversion", "reloaded", "fresh_thread", "second_thread", "fallback_zone", "file_zone", "rule_zone", "changed_within_window", "public_clock_replay"],
-        rule: "one process, the real Local through its public API, two persistent worker threads (each with its own thread-local cache) plus fresh-thread conversions; event menu of 18: set TZ to one of 12 values {unset, empty, :/abs/file, /abs/file, zoneinfo-relative name, :name, fixed POSIX rule, the same rule behind a colon, alternating POSIX rule, garbage, :/nonexistent, the name with a trailing space}, advance the (guarded, mock) clock by 0.6 s or 1.0 s, convert on thread A / B / a fresh thread (a conversion probes 4 fixed instants in both directions inside one step, so its zone signature is observed); ALL event sequences of length <= k ending in a conversion, from four start states (initial TZ unset / a rule, thread A with or without an existing cache), each executed from scratch; oracle: the signature must be exactly that of one zone, namely the zone of a TZ value held at some moment within the last second before the conversion (exactly the current value for a thread's first conversion or when nothing changed for >= 1 s); a decoy file with a zoneinfo-relative name sits in the working directory; a stride of histories is replayed without the clock seam, with real sleeps",
+        rule: "one process, the real Local through its public API, two persistent worker threads (each with its own thread-local cache) plus fresh-thread conversions; event menu of 19: set TZ to one of 13 values {unset, empty, :/abs/file, /abs/file, zoneinfo-relative name, :name, fixed POSIX rule, the same rule behind a colon, alternating POSIX rule, garbage, :/nonexistent, the name with a trailing space, :/abs/readable-but-unparsable file}, advance the (guarded, mock) clock by 0.6 s or 1.0 s, convert on thread A / B / a fresh thread (a conversion probes 4 fixed instants in both directions inside one step, so its zone signature is observed); ALL event sequences of length <= k ending in a conversion, from four start states (initial TZ unset / a rule, thread A with or without an existing cache), each executed from scratch; oracle: the signature must be exactly that of one zone, namely the zone of a TZ value held at some moment within the last second before the conversion (exactly the current value for a thread's first conversion or when nothing changed for >= 1 s); a decoy file with a zoneinfo-relative name sits in the working directory; a stride of histories is replayed without the clock seam, with real sleeps",
         assumptions: &["no preemption inside a conversion (getenv/setenv are not interceptable and concurrent use is undefined behaviour)", "the system zone of this sandbox is Etc/UTC, so 'system zone' and the final UTC fallback are observationally equal; private mount namespaces with another /etc/localtime are attempted in the thorough tier and skipped with a note if unshare is refused"],
     };
     let only = replay_unit(&args);
